@@ -141,6 +141,9 @@ func nxConfigs(part string, thorough bool) []*nxCfg {
 			{Name: "ondisk-snappy-lagging-follower", N: 3, OnDisk: true, EntrySnappy: true, MaxDev: pick(1, 2), Prefix: nxWarm,
 				// replica 3 is cut off while three writes commit, then gets and applies them in one batch
 				Script: []string{"M4", "W1", "W2", "W1", "E", "H1", "H1", "R3", "W2", "R3", "H1"}, LazyApplies: 1, Drops: 1, Crashes: 1, Horizon: 300},
+			{Name: "ondisk-restart-idle-stream", N: 3, OnDisk: true, SnapshotEntries: 2, Compaction: 1, MaxDev: pick(1, 2), Prefix: nxWarm,
+				// the leader restarts with everything it applied already on disk, stays idle, and then streams a snapshot to replica 3
+				Script: []string{"M4", "W1", "W2", "W1", "W2", "C1", "T1", "H1", "H1", "E", "H1", "H1", "R3", "H1", "W1", "R3", "H1"}, Writes: 1, LazyApplies: 1, Drops: 1, Horizon: 400},
 			{Name: "ondisk-stream-catchup-read", N: 3, OnDisk: true, SnapshotEntries: 2, Compaction: 1, MaxDev: pick(1, 2), Prefix: nxWarm,
 				Script: []string{"M4", "W1", "W2", "W1", "W2", "E", "H1", "H1", "R3", "W1", "R3", "C3", "H1", "R3", "W2", "H1"}, LazyApplies: 1, Drops: 1, Crashes: 1, Reorders: 1, Horizon: 400},
 			{Name: "3v+nv-partitioned-old-leader", N: 3, NonVotings: 1, MaxDev: pick(2, 3), Prefix: []string{"T1", "D*", "H1", "D*", "A1:4", "D*", "J4", "D*", "H1", "D*"},
